@@ -75,9 +75,9 @@ def cf_summary(cf):
     return out
 
 
-def make_catalog(path, df, ncent, mode, mw, chunksize):
+def make_catalog(path, df, ncent, mode, mw, chunksize, progress=False):
     kw = dict(ra_name="ra", dec_name="dec", redshift_name="z", weight_name="w", degrees=False, chunksize=chunksize,
-              overwrite=True, max_workers=mw)
+              overwrite=True, max_workers=mw, progress=progress)
     if mode == "centres":
         kw["patch_centers"] = AngularCoordinates(CENT[:ncent])
     elif mode == "ids":
@@ -91,19 +91,20 @@ def make_catalog(path, df, ncent, mode, mw, chunksize):
 def scenario(name, p, workdir: Path, rank: int):
     """SPMD body: every rank runs this; returns a JSON-able summary"""
     mw = p.get("max_workers")
+    prog = bool(p.get("progress", False))        # progress display wraps the parallel iterators on every rank
     ncent = p.get("ncent", 3)
     edges = p.get("edges", [0.1, 0.4, 0.7, 1.0])
     conf = Configuration.create(rmin=0.005, rmax=0.08, unit="rad", edges=edges)
     if name == "create":
         df = frame(p["n"], p["seed"], ncent, with_patch=p["mode"] == "ids")
-        cat = make_catalog(workdir / "cat", df, ncent, p["mode"], mw, p["chunksize"])
+        cat = make_catalog(workdir / "cat", df, ncent, p["mode"], mw, p["chunksize"], prog)
         return cat_summary(cat)
     if name == "load":
         cat = Catalog(workdir / "pre_d", max_workers=mw)
         return cat_summary(cat)
     if name == "trees":
         cat = Catalog(workdir / "pre_d", max_workers=mw)
-        cat.build_trees(edges, closed="right", force=True, max_workers=mw)
+        cat.build_trees(edges, closed="right", force=True, max_workers=mw, progress=prog)
         out = []
         if rank == 0:
             import pickle
@@ -115,14 +116,14 @@ def scenario(name, p, workdir: Path, rank: int):
     if name in ("auto", "cross"):
         d, r = Catalog(workdir / "pre_d", max_workers=mw), Catalog(workdir / "pre_r", max_workers=mw)
         if name == "auto":
-            cf = yaw.autocorrelate(conf, d, r, count_rr=True, max_workers=mw)[0]
+            cf = yaw.autocorrelate(conf, d, r, count_rr=True, max_workers=mw, progress=prog)[0]
         else:
             u = Catalog(workdir / "pre_u", max_workers=mw)
-            cf = yaw.crosscorrelate(conf, d, u, ref_rand=r, max_workers=mw)[0]
+            cf = yaw.crosscorrelate(conf, d, u, ref_rand=r, max_workers=mw, progress=prog)[0]
         return cf_summary(cf)
     if name == "hist":
         d = Catalog(workdir / "pre_d", max_workers=mw)
-        h = HistData.from_catalog(d, conf, max_workers=mw)
+        h = HistData.from_catalog(d, conf, max_workers=mw, progress=prog)
         return {"hist": digest(h.data, h.samples)}
     if name == "io":
         d, r = Catalog(workdir / "pre_d", max_workers=mw), Catalog(workdir / "pre_r", max_workers=mw)
